@@ -258,7 +258,8 @@ def _dc_class(term, reg: Registry):
     cls = classes.build_dataclass(term, reg)
     reg.by_def[key] = cls
     # classes referred to by forward references are defined only now (postponed evaluation of the referring class)
-    while reg.pending_fwd:
+    # (a behaviour replay that defines the referred class at a step of its own sets reg.defer_fwd)
+    while reg.pending_fwd and not getattr(reg, "defer_fwd", False):
         concretize_type(reg.pending_fwd.pop(0), reg)
     return cls
 
